@@ -108,9 +108,9 @@ theorem coupling_affine_inv_differentiable (hs : ∀ ps, scale ps ≠ 0) (c : Li
 differentiable, every first-block size `d ≤ n`, every condition, every non-vanishing scale function. -/
 theorem coupling_affine_invJacN (hdn : d ≤ n) (hs : ∀ ps, scale ps ≠ 0) (c : List ℝ) (hc : CondDiff d n cnd loc scale c) :
     Mass.InvJacN (liftBij n (couplingBij d cnd (affineFamily loc scale))) c := by
-  refine ⟨coupling_affine_lawful d n cnd loc scale hs, ?_⟩
   have hdiff := coupling_affine_inv_differentiable d n cnd loc scale hs c hc
-  refine ⟨fun y => fderiv ℝ (fun w => (liftBij n (couplingBij d cnd (affineFamily loc scale))).inv w c) y, ?_⟩
+  refine Mass.InvJacN.of_hasFDerivAt (coupling_affine_lawful d n cnd loc scale hs)
+    (fun y => fderiv ℝ (fun w => (liftBij n (couplingBij d cnd (affineFamily loc scale))).inv w c) y) ?_
   intro y
   have hJ := (hdiff y).hasFDerivAt
   refine ⟨hJ, ?_⟩
